@@ -1337,7 +1337,7 @@ def check_c08(pid, tier, build, props):
             problems.append("front-end correspondence harness: %r" % (meta,))
         elif meta and "skipped" in meta:
             fe["skipped"][meta["skipped"]] = fe["skipped"].get(meta["skipped"], 0) + 1
-        elif (meta and "model_mismatch" in meta) or r != [1, 1, 1, 1]:
+        elif (meta and "model_mismatch" in meta) or r != [1, 1, 1, 1, 1]:
             fe["mismatch"] += 1
             if fe["mismatch"] <= 2:
                 violations.append({"source": item, "witness": None,
@@ -1375,9 +1375,11 @@ def check_c08(pid, tier, build, props):
                        "(plain statements, pass, return, break, continue, if/else, while/else, for/else in desugared "
                        "form; any nesting), every meaning of statements and tests, every state - if the function "
                        "returns or raises, the block-by-block interpretation of the graph built by the front-end model "
-                       "does the same in the same state. Tie: Src.build(skeleton) = the transformer's unpruned graph, "
-                       "block for block in creation order (front_end_model_correspondence). NOT proved: that pruning "
-                       "preserves meaning (census only), and/or operands, for-desugaring vs Python's for, divergence - "
+                       "does the same in the same state; and the three pruning passes keep that meaning "
+                       "(C08_pruned_graph_means_source, via prune_keeps_meaning and build_tests_last). Tie: "
+                       "Src.build(skeleton) = the transformer's unpruned graph and SrcPrune.sprune of it = the "
+                       "transformer's pruned graph (and entry), block for block in dictionary order "
+                       "(front_end_model_correspondence). NOT proved: and/or operands, for-desugaring vs Python's for, divergence - "
                        "decided by path-exhaustive differential execution against CPython (exploration). Known findings (test suite pins the behaviour): nested and/or "
                        "operands are hoisted eagerly; a for target is initialised to None.",
     }
